@@ -226,3 +226,24 @@ Definition capture_ok (s : capture_site) : bool :=
 
 Definition expected_capture_sites : list string :=
   ["EvalFunction"; "SexpLazyArg.Force"; "Zlisp.Apply"; "Zlisp.CallUserFunction"; "Zlisp.EvalCallExpression"; "Zlisp.Run"].
+
+(* ------------------------------------------------------------------ part 3: census of the read / compile phases
+
+   The second half of coq/Generated/Reentry.v lists, from the Go source: the fields of the Lexer and Parser
+   structs, the fields Lexer.Reset / Parser.ResetAddNewInput assign unconditionally, whether LoadStream
+   resets first, how GenerateForLoop pops the loop stack, where LoadExpressions appends to the main
+   buffer, where SexpLazyArg.Force marks the cell forced.  Model/Phases.v models exactly this code;
+   the decision functions say which facts its definitions rely on. *)
+
+(* fields that may keep their value across loads: the back pointer set once by NewLexer *)
+Definition lexer_kept_fields : list string := ["parser"].
+(* lexer, env: set once by NewParser; inBacktick: written, never read; recur: every increment is
+   followed by a deferred decrement (parser_recur_balanced = parser_recur_incs) *)
+Definition parser_kept_fields : list string := ["lexer"; "env"; "inBacktick"; "recur"].
+(* the lexer fields of Phases.rstate *)
+Definition modelled_reader_fields : list string := ["stream"; "next"; "tokens"].
+Definition required_reset_calls : list string := ["lexer.Reset"; "lexer.AddNextStream"].
+
+Definition subset (a b : list string) : bool := forallb (fun f => mem f b) a.
+Definition covers (fields clears kept : list string) : bool :=
+  forallb (fun f => mem f clears || mem f kept) fields.
